@@ -14,7 +14,7 @@ mkdir -p "$tmp"
 trap 'rm -rf "$tmp"' EXIT
 exp="$REPO/_build"
 [ -f "$exp/jwt_export.h" ] || exp="$VERIF/stubs/export"
-CF="-O0 -g -w -I$REPO/include -I$REPO/libjwt -I$exp -I$tmp -I$VERIF/contracts -I$VERIF/replay -DHAVE_OPENSSL -DHAVE_GNUTLS -D_GNU_SOURCE -DVERIF_NATIVE"
+CF="-O0 -g -w -I$tmp -I$REPO/include -I$REPO/libjwt -I$exp -I$VERIF/contracts -I$VERIF/replay -DHAVE_OPENSSL -DHAVE_GNUTLS -D_GNU_SOURCE -DVERIF_NATIVE"
 cc -E "$REPO/libjwt/jwt-common.c" -DJWT_BUILDER -o "$tmp/jwt-builder.i"
 cc -E "$REPO/libjwt/jwt-common.c" -DJWT_CHECKER -o "$tmp/jwt-checker.i"
 srcs=""
